@@ -38,6 +38,19 @@ def worker(job):
     sess = rigp.make_session(cfg, agent, timeout=1.5)
     sock = sess._sock
     state["reply"] = True
+    if not cfg.engine_given and job["seed"] % 2:
+        # the first discovery probe is lost; the context entry is retried on the same session
+        state["reply"] = False
+        sess._timeout = 0.2
+        try:
+            rigp.make_session  # (keep linters quiet)
+            short = rigp.make_session(cfg, agent, timeout=0.2)
+            sess, sock = short, short._sock
+            sess.__enter__()
+        except (TimeoutError, BlockingIOError):
+            pass
+        state["reply"] = True
+        agent.reset_log()
     sess.__enter__()  # discovery (if needed) + time synchronisation, keys installed
     state["reply"] = False
     # everything sent once keys are installed belongs to the first installation: the time-sync probe too
@@ -140,6 +153,10 @@ def worker(job):
             if rq.plaintext and rq.plaintext[:16] in rq.raw:
                 bad("leak", "datagram %d: the first 16 octets of the scoped PDU appear in clear" % i, rq.raw)
         res["salts_distinct"] += len(seen)
+        if len(res.setdefault("samples", [])) < 2:
+            res["samples"].append({"cfg": cfg.key(), "installation": inst, "messages": len(reqs),
+                                   "first_salts": [r.m["usm"]["priv_params"].hex() for r in reqs[:4] if r.m and r.version == 3],
+                                   "boots_in_headers": [r.m["usm"]["boots"] for r in reqs[:4] if r.m and r.version == 3]})
     agent.stop()
     return res
 
@@ -232,6 +249,8 @@ def main():
         st["boots_changes"] += res["boots_changes"]
         st["receives"] += res["receives"]
         st["distinct_salts"] += res["salts_distinct"]
+        for x in res.get("samples", [])[:1]:
+            chk.sample(x, limit=5)
         key = rigp.Cfg.from_json(o["job"]["cfg"]).key()
         for k in range(res["installations"]):
             chk.distinct.add("%s#%d" % (key, k))
@@ -241,7 +260,6 @@ def main():
     chk.extra["rig_p"] = st
     chk.floor("messages", st["messages"], 10000)
     rig_r(chk, a.tier, a.seed)
-    chk.sample({"installation": "v3/sha1/aes", "salts": ["9f3c..01", "9f3c..02", "9f3c..03"], "judged": "8 octets, +1 mod 2^64, distinct; OID needle absent"})
     sys.exit(chk.finish())
 
 
